@@ -410,8 +410,8 @@ impl Sim for RegistersSim {
             level: "exploration",
             // weights: 6 fault-free, 6 fault, 1 entry-limit run (~0.8 s of BLS signing each) out of every 13
             modes: vec!["nofault", "fault", "nofault", "fault", "nofault", "fault", "limit", "nofault", "fault", "nofault", "fault", "nofault", "fault"],
-            quick_runs: 1_820,
-            thorough_runs: 91_000,
+            quick_runs: 1_560,
+            thorough_runs: 52_000,
             rule: "One run = one seeded plan over 2..5 replicas (each a real SignedRegister + RegisterCrdt; some start without the register) with owner-only / listed-writers / anyone permissions and BLS keys derived from the plan: clients write entries with the real RegisterCrdt::write + RegisterOp::new (authorised, unauthorised signer, two forgeries, two foreign-address forms, oversized, identical content, concurrent siblings, children delivered before parents), ops travel as op broadcast (add_op + apply_op) or inside whole registers (verified_merge, verify + merge, verify_with_address for a replica without the register), adversarial registers (injected op, widened permissions, other base register) arrive only through those verifying entry points; the simulator owns the message queue (mode nofault: FIFO reliable; mode fault: reordering, duplication, loss until heal, partitions; mode limit: anyone-can-write registers driven to 1016..1030 ops by add_op and by merges). After every delivery the replica's op set is compared with the independently kept valid set and acknowledged outcomes, its current values with an independent Merkle-DAG model and with a client-style rebuild; merge laws are checked on sampled triples of recorded reachable states; every run ends with heal + full delivery followed by equality of ops() and read() across replicas and verify() of every final state at its peers. Non-trivial = >=3 operations and (>=1 non-FIFO delivery or >=1 fired fault); distinct = distinct fingerprint of the executed delivery decisions and faults.",
             assumptions: vec![
                 "a replica is driven as the client/node code drives it: local write = RegisterCrdt::write + RegisterOp::new + add_op; remote op = add_op then apply_op; remote register = verified_merge, or verify then merge, or (register not held) verify_with_address then store, the CRDT being rebuilt with apply_op as Client::register_get does",
